@@ -39,9 +39,9 @@ type icStack struct {
 	dispatch           []bool // per statement interceptor: may parse the statement itself through the public Parse*Statement API
 	coin               *rand.Rand
 	viaPlugin          bool
-	plugMask           uint64 // with viaPlugin: bit i set = the i-th installed interceptor goes through Install(plugin), else directly
-	interleave         []byte // installation order of kinds, e.g. "tsetse"
-	stageAt            int    // interceptors interleave[stageAt:] are installed only after a first parser was built from the builders
+	plugMask           uint64  // with viaPlugin: bit i set = the i-th installed interceptor goes through Install(plugin), else directly
+	interleave         []byte  // installation order of kinds, e.g. "tsetse"
+	stageAt            int     // interceptors interleave[stageAt:] are installed only after a first parser was built from the builders
 	regs               []opReg // operators registered on the builders before any interceptor is installed (custom-operators stratum)
 }
 
